@@ -7,6 +7,11 @@ REAL domain with trigonometric atoms (sin^2 + cos^2 = 1), real code from LLVM IR
    angular momentum h^2 = mu a (1-e^2), vis-viva v^2 = mu (2/r - 1/a), position and velocity relative to the primary.
  * reb_M_to_E: the start value and the Newton update contain no division by zero for any valid (e, M), elliptic and hyperbolic
    (in particular at pericentre passage M = 0).
+ * reb_orbit_from_particle_err, all paths, symbolic particle and primary: error codes only for a massless primary / coincident
+   particles; the reported angles satisfy the documented defining relations modulo 2 pi (pomega = Omega +- omega,
+   theta = pomega +- f, l = pomega +- M for prograde / retrograde orbits in the planar and the inclined branch) and lie in
+   [0, 2 pi); d and v are the relative distance and speed.  Refuted relations are replayed on native representatives of the
+   same path class (planar/inclined x prograde/retrograde x circular/eccentric x bound/unbound).
  * reb_mod2pi returns a value in [0, 2 pi) congruent to its argument (fmod by its defining relation)."""
 import sys, os, time, ctypes, math
 sys.path.insert(0, os.path.dirname(os.path.dirname(os.path.abspath(__file__))))
@@ -159,10 +164,181 @@ def run_mod2pi(u):
         if not (0 <= y < 2 * math.pi + 1e-15) or abs(math.remainder(y - x, 2 * math.pi)) > 1e-9: rep.errors.append("native reb_mod2pi(%r) = %r" % (x, y))
     return rep
 
+TWO_PI = 2 * math.pi
+OEL = ['d', 'v', 'h', 'P', 'n', 'a', 'e', 'inc', 'Omega', 'omega', 'pomega', 'f', 'M', 'l', 'theta', 'T']
+
+def path_class(inc, e):
+    return ('planar' if (inc < 1e-8 or inc > math.pi - 1e-8) else 'inclined', 'prograde' if inc < math.pi / 2 else 'retrograde', 'eccentric' if e > 1e-8 else 'circular', 'bound' if e < 1 else 'unbound')
+
+def native_orbit(p, prim, G=1.0):
+    """native reb_orbit_from_particle_err on particle dicts -> (err, dict of elements)"""
+    N_ = nat(); L = N_.L; psz = L.structs['reb_particle']['size']; osz = L.structs['reb_orbit']['size']
+    class Pt(ctypes.Structure): _fields_ = [('b', ctypes.c_ubyte * psz)]
+    class Ob(ctypes.Structure): _fields_ = [('b', ctypes.c_ubyte * osz)]
+    f = N_.lib.reb_orbit_from_particle_err; f.restype = Ob; f.argtypes = [ctypes.c_double, Pt, Pt, ctypes.POINTER(ctypes.c_int)]
+    a, b = Pt(), Pt()
+    for st, d in ((a, p), (b, prim)):
+        v = NView(N_, ctypes.addressof(st), 'reb_particle')
+        for k, x in d.items(): v.set(k, x)
+    err = ctypes.c_int(0)
+    o = f(G, a, b, ctypes.byref(err))
+    ov = NView(N_, ctypes.addressof(o), 'reb_orbit')
+    return err.value, {k: ov.get(k) for k in OEL}
+
+def native_particle(G, Mp, m, a, e, inc, Omega, omega, f):
+    N_ = nat(); L = N_.L; psz = L.structs['reb_particle']['size']
+    class Pt(ctypes.Structure): _fields_ = [('b', ctypes.c_ubyte * psz)]
+    fn = N_.lib.reb_particle_from_orbit_err; fn.restype = Pt
+    fn.argtypes = [ctypes.c_double, Pt] + [ctypes.c_double] * 7 + [ctypes.POINTER(ctypes.c_int)]
+    prim = Pt(); NView(N_, ctypes.addressof(prim), 'reb_particle').set('m', Mp)
+    err = ctypes.c_int(0)
+    p = fn(G, prim, m, a, e, inc, Omega, omega, f, ctypes.byref(err))
+    pv = NView(N_, ctypes.addressof(p), 'reb_particle')
+    return err.value, {c: pv.get(c) for c in ('x', 'y', 'z', 'vx', 'vy', 'vz', 'm')}
+
+def angle_off(x):
+    """distance of x from the nearest multiple of 2 pi"""
+    r = math.fmod(x, TWO_PI)
+    return min(abs(r), abs(abs(r) - TWO_PI))
+
+def relation_defects(o):
+    sg = 1.0 if o['inc'] < math.pi / 2 else -1.0
+    out = []
+    if angle_off(o['pomega'] - o['Omega'] - sg * o['omega']) > 1e-7: out.append('pomega = Omega %s omega' % ('+' if sg > 0 else '-'))
+    if angle_off(o['theta'] - o['pomega'] - sg * o['f']) > 1e-7: out.append('theta = pomega %s f' % ('+' if sg > 0 else '-'))
+    if o['e'] > 1e-8 and angle_off(o['l'] - o['pomega'] - sg * o['M']) > 1e-7: out.append('l = pomega %s M' % ('+' if sg > 0 else '-'))
+    for k in ('f', 'l', 'M', 'theta', 'omega'):
+        if not (0 <= o[k] < TWO_PI + 1e-12): out.append('%s in [0, 2pi)' % k)
+    return out
+
+_POOL = None
+def pool():
+    """native representatives of every path class of reb_orbit_from_particle_err: particles built by the native
+    reb_particle_from_orbit_err from an element grid, classified by the elements the native inverse reports"""
+    global _POOL
+    if _POOL is None:
+        _POOL = {}
+        for inc in (0.0, 3e-9, 0.4, 1.3, math.pi / 2 + 0.3, 2.8, math.pi - 3e-9, math.pi):
+            for e, a in ((0.0, 1.3), (3e-9, 1.3), (0.3, 0.8), (0.85, 2.0), (1.7, -1.1)):
+                for Om, om, f in ((0.3, 0.9, 0.5), (2.5, 4.0, 3.9), (5.1, 0.2, 2.2), (0.0, 1.1, 6.0), (4.4, 5.9, 1.0)):
+                    if e > 1 and abs(f) > 2.0: f = 0.7 * (1 if f < 3.14 else -1)
+                    err, p = native_particle(1.0, 1.0, 1e-3, a, e, inc, Om, om, f)
+                    if err: continue
+                    err2, o = native_orbit(p, dict(m=1.0))
+                    if err2: continue
+                    _POOL.setdefault(path_class(o['inc'], o['e']), []).append((p, o, dict(a=a, e=e, inc=inc, Omega=Om, omega=om, f=f)))
+    return _POOL
+
+def native_to_orbit(cls):
+    """replay on the native representatives of a path class"""
+    bad = []
+    for p, o, el in pool().get(tuple(cls), []):
+        d = relation_defects(o)
+        # round trip of the shape elements through the native pair from_orbit -> orbit_from_particle
+        if abs(o['a'] - el['a']) > 1e-9 * abs(el['a']): d.append('a read back')
+        if abs(o['e'] - el['e']) > 1e-9: d.append('e read back')
+        if abs(o['inc'] - el['inc']) > 1e-7: d.append('inc read back')
+        if d: bad.append((el, d, {k: o[k] for k in ('inc', 'Omega', 'omega', 'pomega', 'f', 'theta', 'l', 'M')}))
+    n = len(pool().get(tuple(cls), []))
+    return bool(bad), "native reb_orbit_from_particle on %d %s orbits: %s" % (n, '/'.join(cls), ("defining relation violated: %r" % (bad[0],)) if bad else "all defining relations hold")
+
+class Lineariser:
+    """abstraction for obligations that are linear in the atoms: every application of an uninterpreted function (sqrt, inv, acos2,
+    sin, ...) and every genuinely non-linear product / power / division is replaced by a fresh real constant (the same term always
+    by the same constant).  Proving the abstracted obligation proves the original (the abstraction only forgets facts)."""
+    def __init__(s): s.cache = {}; s.n = 0
+    def fresh(s, t):
+        s.n += 1; return z3.Real('lin!%d' % s.n)
+    def __call__(s, t):
+        t = z3.simplify(t) if z3.is_expr(t) else t
+        return s.go(t)
+    def go(s, t):
+        k = t.get_id()
+        if k in s.cache: return s.cache[k][1]
+        r = s._go(t); s.cache[k] = (t, r); return r           # keep t alive: z3 recycles ast ids
+    def _go(s, t):
+        if z3.is_const(t) or z3.is_rational_value(t) or z3.is_int_value(t): return t
+        kind = t.decl().kind(); ch = t.children()
+        if kind == z3.Z3_OP_UNINTERPRETED: return s.fresh(t) if t.sort() == z3.RealSort() else t
+        if kind == z3.Z3_OP_MUL:
+            nonnum = [c for c in ch if not (z3.is_rational_value(c) or z3.is_int_value(c))]
+            if len(nonnum) > 1 and not all(c.sort() == z3.IntSort() for c in nonnum) and not (len(nonnum) == 2 and any(c.decl().kind() == z3.Z3_OP_TO_REAL for c in nonnum) and False): return s.fresh(t)
+        if kind in (z3.Z3_OP_POWER, z3.Z3_OP_DIV) and not (kind == z3.Z3_OP_DIV and (z3.is_rational_value(ch[1]))): return s.fresh(t)
+        nch = [s.go(c) for c in ch]
+        return t.decl()(*nch) if nch else t
+
+def run_to_orbit(u):
+    """reb_orbit_from_particle_err from LLVM IR, all paths, symbolic particle and primary.  acos2 (the code's own arccos-with-
+    disambiguation helper) is an uninterpreted function: the relations proved hold whatever it returns."""
+    rep = Report(); label = "orbit_from_particle_err "
+    prover = Prover(t_inproc_ms=u.get('t_ms', 10000), use_external=u.get('ext', False), t_ext_s=30)
+    L = build.layout(); psz = L.structs['reb_particle']['size']; osz = L.structs['reb_orbit']['size']
+    def run(ctx):
+        dom = Real(); I = new_interp(dom, ctx)
+        I.stubs['@acos2'] = lambda I_, a, b, c: dom.fn('acos2', 3)(dom.z(a), dom.z(b), dom.z(c))
+        G = dom.fresh('G'); ctx.assume(G > 0)
+        P = {}
+        pp = I.mem.alloc(psz, 'p', 'harness', zero=True); pr = I.mem.alloc(psz, 'primary', 'harness', zero=True)
+        for tag, obj in (('p', pp), ('q', pr)):
+            v = SimView(I, obj, 'reb_particle')
+            for c in ('x', 'y', 'z', 'vx', 'vy', 'vz', 'm'):
+                P[(tag, c)] = dom.fresh('%s_%s' % (tag, c)); v.set(c, P[(tag, c)])
+        ctx.assume(P[('p', 'm')] >= 0); ctx.assume(P[('q', 'm')] >= 0)
+        out = I.mem.alloc(osz, 'orbit', 'harness', zero=True); err = I.mem.alloc(4, 'err', 'harness', zero=True)
+        I.call('@reb_orbit_from_particle_err', [out, G, pp, pr, err])
+        return I, dom, G, P, SimView(I, out, 'reb_orbit'), I.mem.load(err, I32)
+    ex = Explorer(run, max_paths=200, timeout_ms=150)         # feasibility is only a pruning aid here: unknown = keep the path
+    try: ex.explore()
+    except BoundExceeded as e: rep.bound_exceeded.append(label + str(e))
+    rep.queries += ex.nqueries; rep.solver_time += ex.qtime
+    from fractions import Fraction
+    done_dv = []
+    PI = z3.RealVal(Fraction(math.pi)); PI2 = 2 * PI          # the code's M_PI, exactly
+    for ctx, (I, dom, G, P, out, err) in ex.results:
+        rep.paths += 1; rep.add_interp(I)
+        ob = Obligations(rep, prover, label + "path%d err=%s " % (rep.paths, err))
+        pc = list(ctx.pc); ax = list(dom.axioms); nz = [b != 0 for b in dom.divs]
+        d2 = sum((P[('p', c)] - P[('q', c)]) ** 2 for c in ('x', 'y', 'z'))
+        if err != 0:
+            ob.prove("an error code is returned only without a primary mass or on top of the primary", z3.Or(P[('q', 'm')] <= z3.RealVal('1e-308'), d2 <= z3.RealVal('1e-308') ** 2), pc, axioms=ax, domain='REAL')
+            continue
+        o = {k: dom.z(out.get(k)) for k in OEL}
+        def mk(model_terms=(o['inc'], o['e'])):
+            def on_sat(model):
+                inc = float(model_value(model, model_terms[0]) or 0.0); e = float(model_value(model, model_terms[1]) or 0.0)
+                cls = path_class(inc, e)
+                ok, detail = native_to_orbit(cls)
+                return ok, 'C11:to_orbit:' + '/'.join(cls), detail, dict(kind='to_orbit', cls=list(cls))
+            return on_sat
+        lin = Lineariser()
+        lpc = [lin(c) for c in pc + ax]
+        pro = o['inc'] < PI / 2
+        def cong(t): return z3.IsInt(t / PI2)
+        ECC = z3.RealVal(Fraction(1e-8))                      # the code's MIN_ECC, exactly
+        # the prograde / retrograde case split is done here (two obligations) rather than with an if-then-else inside IsInt
+        for nm, sg, side in (('prograde', 1, pro), ('retrograde', -1, z3.Not(pro))):
+            A = lpc + [lin(side)]
+            ob.prove("%s: pomega == Omega %s omega modulo 2 pi" % (nm, '+' if sg > 0 else '-'), lin(cong(o['pomega'] - o['Omega'] - sg * o['omega'])), A, on_sat=mk(), domain='LRA+LIA after abstraction of non-linear terms and uninterpreted atoms')
+            ob.prove("%s: theta == pomega %s f modulo 2 pi" % (nm, '+' if sg > 0 else '-'), lin(cong(o['theta'] - o['pomega'] - sg * o['f'])), A, on_sat=mk(), domain='LRA+LIA after abstraction of non-linear terms and uninterpreted atoms')
+            ob.prove("%s: l == pomega %s M modulo 2 pi when e > MIN_ECC" % (nm, '+' if sg > 0 else '-'), lin(cong(o['l'] - o['pomega'] - sg * o['M'])), A + [lin(o['e'] > ECC)], on_sat=mk(), domain='LRA+LIA after abstraction of non-linear terms and uninterpreted atoms')
+        for k in ('f', 'l', 'M', 'theta', 'omega'):
+            ob.prove("%s is reported in [0, 2 pi)" % k, lin(z3.And(o[k] >= 0, o[k] < PI2)), lpc, on_sat=mk(), domain='REAL+Int (linearised)')
+        if not done_dv:
+          done_dv.append(1)          # the same terms on every path: once
+          ob.prove("d^2 == |r - r_primary|^2 and v^2 == |v - v_primary|^2", z3.And(o['d'] * o['d'] == d2, o['v'] * o['v'] == sum((P[('p', c)] - P[('q', c)]) ** 2 for c in ('vx', 'vy', 'vz'))), [], axioms=ax, domain='REAL')
+        ob.witness("path (linearised)", lpc)
+    # every path class has native representatives and they satisfy the relations (also the reachability twin of the replays)
+    for cls, items in sorted(pool().items()):
+        bad, detail = native_to_orbit(cls); rep.replays += 1
+        if bad: rep.violations.append(dict(key='C11:to_orbit:' + '/'.join(cls), what=detail, replay=dict(kind='to_orbit', cls=list(cls)), obligation=label + 'native twin'))
+        else: rep.witnesses += 1
+    return rep
+
 def worker(u):
-    return {'from_orbit': run_from_orbit, 'M_to_E': run_M_to_E, 'mod2pi': run_mod2pi}[u['what']](u)
+    return {'from_orbit': run_from_orbit, 'M_to_E': run_M_to_E, 'mod2pi': run_mod2pi, 'to_orbit': run_to_orbit}[u['what']](u)
 
 def replay(data):
+    if data['kind'] == 'to_orbit': return native_to_orbit(data['cls'])
     if data['kind'] == 'M_to_E':
         g = nat().lib.reb_M_to_E; g.restype = ctypes.c_double; g.argtypes = [ctypes.c_double, ctypes.c_double]
         r = g(data['e'], data['M']); return (r != r), "reb_M_to_E(e=%r, M=%r) = %r" % (data['e'], data['M'], r)
@@ -172,12 +348,12 @@ def main():
     tier = os.environ.get('VERIF_TIER') or (sys.argv[1] if len(sys.argv) > 1 else 'quick')
     t0 = time.time()
     build.module(); build.layout(); build.build_native()
-    us = [dict(what='from_orbit', t_ms=10000 if tier == 'quick' else 60000, t_ext=20 if tier == 'quick' else 120), dict(what='M_to_E', hyper=0), dict(what='M_to_E', hyper=1), dict(what='mod2pi')]
+    us = [dict(what='from_orbit', t_ms=10000 if tier == 'quick' else 60000, t_ext=20 if tier == 'quick' else 120), dict(what='M_to_E', hyper=0), dict(what='M_to_E', hyper=1), dict(what='mod2pi'), dict(what='to_orbit', t_ms=10000 if tier == 'quick' else 60000)]
     rep = run_units(us, worker)
     code = finish(PID, tier, rep, t0,
-        bounds=dict(functions=['reb_particle_from_orbit_err', 'reb_M_to_E (start value + first Newton update)', 'reb_mod2pi'], newton_iterations=2),
+        bounds=dict(functions=['reb_particle_from_orbit_err', 'reb_orbit_from_particle_err (all 18 paths; acos2 stubbed as uninterpreted)', 'reb_M_to_E (start value + first Newton update)', 'reb_mod2pi'], newton_iterations=2),
         assumptions=['G > 0, m >= 0 (documented)', 'angles enter through (sin, cos) atoms with sin^2+cos^2=1', 'real arithmetic'],
-        outside=['convergence and accuracy of the Kepler / Pal Newton iterations', 'reb_orbit_from_particle (inverse trigonometric functions) and the round trip through it', 'the Pal-element constructors', 'equivalence of the Python and C front ends (argument combination logic)', 'behaviour within rounding of the planar/circular thresholds'],
+        outside=['convergence and accuracy of the Kepler / Pal Newton iterations', 'reb_orbit_from_particle: values of the inverse trigonometric functions (acos2 is an uninterpreted function; the relations among the reported angles are proved for whatever it returns) and hence the symbolic round trip; vis-viva for the reported a (NRA query inconclusive, dropped)', 'the Pal-element constructors', 'equivalence of the Python and C front ends (argument combination logic)', 'behaviour within rounding of the planar/circular thresholds'],
         domain_note='REAL + trig atoms; z3 NRA portfolio')
     sys.exit(code)
 
